@@ -155,29 +155,44 @@ Inductive source :=
 Inductive res := ROk (items : list string) | RErr | RFuel.
 
 Definition reader := source -> bool -> aref -> list string -> lworld -> res * list string * lworld.
+Definition out := (res * list string * lworld)%type.
+
+(* three places where versions of loaders.py differ; the translator reads them off the source on every run *)
+Record lshape := {
+  sh_mark_entry : bool;     (* _read_neuroml2 records the file it reads in already_included before loading it *)
+  sh_append_first : bool;   (* the include loop appends incl_loc BEFORE following the include (else after) *)
+  sh_h5_threads : bool      (* NeuroMLHdf5Loader.load / NeuroMLHdf5Parser.parse hand already_included on to the read of
+                               the embedded XML (else that read omits it and gets the default of read_neuroml2_string) *)
+}.
 
 (* which reference an omitted `already_included` denotes *)
 Definition default_ref (m : default_mode) (c : cell) : aref :=
   match m with DNone => ALocal | DSharedList => AWorld c end.
 
 (* NeuroMLHdf5Loader.load -> NeuroMLHdf5Parser.parse: the embedded XML goes through
-   read_neuroml2_string(nml, include_includes=True, base_path=...) WITHOUT already_included;
-   then the built network document gets all of it (add_all_to_document).  The caller's local list is untouched. *)
-Definition load_h5_with (rd : reader) (ms : modes) (fs : fstore) (p : string) (loc : list string) (w : lworld)
-  : res * list string * lworld :=
+   read_neuroml2_string(nml, include_includes=True, base_path=...); then the built network document gets all of it
+   (add_all_to_document).  (r, loc) is the caller's already_included. *)
+Definition load_h5_with (rd : reader) (ms : modes) (sh : lshape) (fs : fstore) (p : string) (r : aref)
+           (loc : list string) (w : lworld) : out :=
   match lookup_file fs p with
   | None => (RErr, loc, w)
   | Some f =>
     match f_kind f with
     | FXml => (RErr, loc, w)
     | FH5 =>
+      if sh_h5_threads sh then
+        match rd (SEmb p) true r loc w with
+        | (ROk extra, loc1, w1) => (ROk (add_all extra (f_net f)), loc1, w1)
+        | (e, loc1, w1) => (e, loc1, w1)
+        end
+      else
       match m_string ms with
-      | DNone =>
+      | DNone =>       (* a fresh list; the caller's local list is untouched *)
         match rd (SEmb p) true ALocal [] w with
         | (ROk extra, _, w1) => (ROk (add_all extra (f_net f)), loc, w1)
         | (e, _, w1) => (e, loc, w1)
         end
-      | DSharedList =>
+      | DSharedList => (* the shared default object of read_neuroml2_string *)
         match rd (SEmb p) true (AWorld CellString) loc w with
         | (ROk extra, loc1, w1) => (ROk (add_all extra (f_net f)), loc1, w1)
         | (e, loc1, w1) => (e, loc1, w1)
@@ -185,8 +200,6 @@ Definition load_h5_with (rd : reader) (ms : modes) (fs : fstore) (p : string) (l
       end
     end
   end.
-
-Definition out := (res * list string * lworld)%type.
 
 (* parsing one XML text (a file, a string, or the string embedded in an HDF5 file) *)
 Definition of_file (fs : fstore) (name : string) (k : file_kind) (loc : list string) (w : lworld)
@@ -201,59 +214,73 @@ Definition of_file (fs : fstore) (name : string) (k : file_kind) (loc : list str
   end.
 
 (* the parse step of _read_neuroml2: Some (includes, items) of the loaded document, or the exception *)
-Definition load_top (rd : reader) (ms : modes) (fs : fstore) (src : source) (loc : list string) (w : lworld)
-  : option (list string * list string) * out :=
+Definition load_top (rd : reader) (ms : modes) (sh : lshape) (fs : fstore) (src : source) (r : aref)
+           (loc : list string) (w : lworld) : option (list string * list string) * out :=
   match src with
   | SStr name => of_file fs name FXml loc w                      (* nmlparsestring *)
   | SEmb p => of_file fs p FH5 loc w
   | SPath p =>
     if ends_with ".h5" p || ends_with ".hdf5" p then    (* NeuroMLHdf5Loader.load *)
-      match load_h5_with rd ms fs p loc w with
+      match load_h5_with rd ms sh fs p r loc w with
       | (ROk items, loc1, w1) => (Some ([], items), (RErr, loc1, w1))
       | (e, loc1, w1) => (None, (e, loc1, w1))
       end
     else of_file fs p FXml loc w                                 (* NeuroMLLoader.load *)
   end.
 
+(* one include of the loop: follow it (read_neuroml2_file does the isfile check, then recurses with the SAME list) *)
+Definition follow (rd : reader) (ms : modes) (sh : lshape) (fs : fstore) (r : aref) (i : string) (h5 : bool)
+           (loc : list string) (w : lworld) : out :=
+  if h5 then load_h5_with rd ms sh fs i r loc w
+  else match lookup_file fs i with
+       | None => (RErr, loc, w)          (* "Unable to find file" -> sys.exit() *)
+       | Some _ => rd (SPath i) true r loc w
+       end.
+
 (* the include loop of _read_neuroml2 *)
-Fixpoint inc_loop (rd : reader) (ms : modes) (fs : fstore) (r : aref) (incs : list string) (doc : list string)
-         (loc : list string) (w : lworld) {struct incs} : out :=
+Fixpoint inc_loop (rd : reader) (ms : modes) (sh : lshape) (fs : fstore) (r : aref) (incs : list string)
+         (doc : list string) (loc : list string) (w : lworld) {struct incs} : out :=
   match incs with
   | [] => (ROk doc, loc, w)
   | i :: rest =>
-    if mem i (aget r loc w) then inc_loop rd ms fs r rest doc loc w      (* incl_loc in already_included *)
-    else if ends_with ".nml" i || ends_with ".xml" i then
-      (* read_neuroml2_file(incl_loc, True, already_included=already_included): isfile check, then recursion;
-         THEN already_included.append(incl_loc); add_all_to_document(sub, doc) *)
-      match lookup_file fs i with
-      | None => (RErr, loc, w)
-      | Some _ =>
-        match rd (SPath i) true r loc w with
-        | (ROk sub, loc2, w2) =>
-          inc_loop rd ms fs r rest (add_all sub doc) (fst (aapp r i loc2 w2)) (snd (aapp r i loc2 w2))
-        | (e, loc2, w2) => (e, loc2, w2)
-        end
-      end
-    else if ends_with ".nml.h5" i then
-      match load_h5_with rd ms fs i loc w with
-      | (ROk sub, loc2, w2) =>
-        inc_loop rd ms fs r rest (add_all sub doc) (fst (aapp r i loc2 w2)) (snd (aapp r i loc2 w2))
-      | (e, loc2, w2) => (e, loc2, w2)
-      end
-    else (RErr, loc, w)                                  (* "Unrecognised extension on file" *)
+    if mem i (aget r loc w) then inc_loop rd ms sh fs r rest doc loc w      (* incl_loc in already_included *)
+    else
+      let xml := ends_with ".nml" i || ends_with ".xml" i in
+      if xml || ends_with ".nml.h5" i then
+        if sh_append_first sh then
+          (* already_included.append(incl_loc); sub = load(...); add_all_to_document(sub, doc) *)
+          match follow rd ms sh fs r i (negb xml) (fst (aapp r i loc w)) (snd (aapp r i loc w)) with
+          | (ROk sub, loc2, w2) => inc_loop rd ms sh fs r rest (add_all sub doc) loc2 w2
+          | (e, loc2, w2) => (e, loc2, w2)
+          end
+        else
+          (* sub = load(...); already_included.append(incl_loc); add_all_to_document(sub, doc) *)
+          match follow rd ms sh fs r i (negb xml) loc w with
+          | (ROk sub, loc2, w2) =>
+            inc_loop rd ms sh fs r rest (add_all sub doc) (fst (aapp r i loc2 w2)) (snd (aapp r i loc2 w2))
+          | (e, loc2, w2) => (e, loc2, w2)
+          end
+      else (RErr, loc, w)                                  (* "Unrecognised extension on file" *)
   end.
 
 (* _read_neuroml2(src, include_includes, already_included = r) *)
-Fixpoint read2 (fuel : nat) (ms : modes) (fs : fstore) (src : source) (incl : bool) (r : aref)
+Fixpoint read2 (fuel : nat) (ms : modes) (sh : lshape) (fs : fstore) (src : source) (incl : bool) (r : aref)
          (loc : list string) (w : lworld) {struct fuel} : out :=
   match fuel with
   | O => (RFuel, loc, w)
   | S n =>
-    let rd : reader := read2 n ms fs in
-    match load_top rd ms fs src loc w with
+    let rd : reader := read2 n ms sh fs in
+    (* this_loc = abspath(file); if this_loc not in already_included: already_included.append(this_loc) *)
+    let mark : bool := match src with
+                       | SPath p => sh_mark_entry sh && negb (mem p (aget r loc w))
+                       | _ => false end in
+    let p0 : string := match src with SPath p => p | _ => "" end in
+    let loc0 := if mark then fst (aapp r p0 loc w) else loc in
+    let w0 := if mark then snd (aapp r p0 loc w) else w in
+    match load_top rd ms sh fs src r loc0 w0 with
     | (None, o) => o
     | (Some (incs, items), (_, loc1, w1)) =>
-      if incl then inc_loop rd ms fs r incs items loc1 w1     (* ... and finally nml2_doc.includes = [] *)
+      if incl then inc_loop rd ms sh fs r incs items loc1 w1     (* ... and finally nml2_doc.includes = [] *)
       else (ROk items, loc1, w1)
     end
   end.
@@ -272,22 +299,22 @@ Definition start_ref (m : default_mode) (c : cell) (ai : option (list string)) :
   | None => (default_ref m c, [])
   end.
 
-Definition exec_call (fuel : nat) (ms : modes) (fs : fstore) (x : lcall) (w : lworld) : res * lworld :=
+Definition exec_call (fuel : nat) (ms : modes) (sh : lshape) (fs : fstore) (x : lcall) (w : lworld) : res * lworld :=
   match x with
   | CFile p incl ai =>
     let '(r, loc) := start_ref (m_file ms) CellFile ai in
     match lookup_file fs p with
     | None => (RErr, w)           (* "Unable to find file" -> sys.exit() *)
-    | Some _ => let '(a, _, w') := read2 fuel ms fs (SPath p) incl r loc w in (a, w')
+    | Some _ => let '(a, _, w') := read2 fuel ms sh fs (SPath p) incl r loc w in (a, w')
     end
   | CString name incl ai =>
     let '(r, loc) := start_ref (m_string ms) CellString ai in
-    let '(a, _, w') := read2 fuel ms fs (SStr name) incl r loc w in (a, w')
+    let '(a, _, w') := read2 fuel ms sh fs (SStr name) incl r loc w in (a, w')
   | CInner src incl ai =>
     let '(r, loc) := start_ref (m_inner ms) CellInner ai in
-    let '(a, _, w') := read2 fuel ms fs src incl r loc w in (a, w')
-  | CLoadH5 p =>
-    let '(a, _, w') := load_h5_with (read2 fuel ms fs) ms fs p [] w in (a, w')
+    let '(a, _, w') := read2 fuel ms sh fs src incl r loc w in (a, w')
+  | CLoadH5 p =>      (* already_included=None -> a fresh list (only used when the shape threads it) *)
+    let '(a, _, w') := load_h5_with (read2 fuel ms sh fs) ms sh fs p ALocal [] w in (a, w')
   | CLoadXml p =>
     match lookup_file fs p with
     | Some f => match f_kind f with FXml => (ROk (f_items f), w) | FH5 => (RErr, w) end
@@ -295,8 +322,11 @@ Definition exec_call (fuel : nat) (ms : modes) (fs : fstore) (x : lcall) (w : lw
     end
   end.
 
-Definition run_hist (fuel : nat) (ms : modes) (fs : fstore) (hist : list lcall) (w : lworld) : lworld :=
-  run cell (list string) lcall res (exec_call fuel ms fs) hist w.
+Definition run_hist (fuel : nat) (ms : modes) (sh : lshape) (fs : fstore) (hist : list lcall) (w : lworld) : lworld :=
+  run cell (list string) lcall res (exec_call fuel ms sh fs) hist w.
+
+(* loaders.py at the pinned commit *)
+Definition shape0 : lshape := {| sh_mark_entry := false; sh_append_first := false; sh_h5_threads := false |}.
 
 Definition none_modes : modes := {| m_file := DNone; m_string := DNone; m_inner := DNone |}.
 
@@ -511,7 +541,9 @@ Definition has_instances (o : obj) : bool :=
   match o with ObPop _ _ _ _ (_ :: _) => true | _ => false end.
 
 (* each handler: new view and whether the call raised (a raising call may leave partial effects, as in the code) *)
-Definition hrec (o : op) (v : bview) : bview * bool :=
+(* eg: handle_connection refuses weight != 1 for an electrical connection between non-instance populations
+   (a guard some versions of NetworkBuilder.py have; read off the source by the translator) *)
+Definition hrec (eg : bool) (o : op) (v : bview) : bview * bool :=
   match o with
   | OpDocStart id =>
     (with_doc v (Some {| d_id := id; d_nets := []; d_silent := [] |}), false)
@@ -599,7 +631,8 @@ Definition hrec (o : op) (v : bview) : bview * bool :=
             | None => (v, true)
             | Some syn =>
               if negb instances then
-                (put (l1 ++ [("electricalConnection", [zs preCell; zs postCell; syn], [cid])])%list l2 l3, false)
+                if eg && negb (weight =? 1)%Z then (v, true)
+                else (put (l1 ++ [("electricalConnection", [zs preCell; zs postCell; syn], [cid])])%list l2 l3, false)
               else if (weight =? 1)%Z then
                 (put l1 (l2 ++ [("electricalConnectionInstance", [prepath; postpath; syn], [cid])])%list l3, false)
               else
@@ -701,7 +734,7 @@ Definition hrec (o : op) (v : bview) : bview * bool :=
     end
   end.
 
-Definition hview (o : op) (v : bview) : bview := let '(v', raised) := hrec o v in with_log v' raised.
+Definition hview (eg : bool) (o : op) (v : bview) : bview := let '(v', raised) := hrec eg o v in with_log v' raised.
 
 (* canonical dump of the document reachable from self.nml_doc, in document order *)
 Definition dump_pop (v : bview) (a : nat) : list rec3 :=
@@ -771,7 +804,7 @@ Definition of_rec (v : bview) : bstore := fun f =>
   | BHPops => FHeapV (v_hpops v) | BHProjs => FHeapV (v_hprojs v) | BHIL => FHeapV (v_hil v)
   end.
 
-Definition h_op (o : op) : handler bfield fval := fun s => of_rec (hview o (to_rec s)).
+Definition h_op (eg : bool) (o : op) : handler bfield fval := fun s => of_rec (hview eg o (to_rec s)).
 
 (* nml_doc, network, the Network objects and the log are per instance in every layout (assigned through self);
    the three arenas live where the dict that indexes them lives *)
@@ -785,11 +818,11 @@ Definition mk_pl (p : dfield -> bool) : bfield -> bool := fun f =>
 Definition bsys := sys bfield fval.
 Definition bsys0 : bsys := {| sh := of_rec empty_view; ownA := of_rec empty_view; ownB := of_rec empty_view |}.
 
-Definition lift_sched (sched : list (who * op)) : list (who * handler bfield fval) :=
-  map (fun p => (fst p, h_op (snd p))) sched.
+Definition lift_sched (eg : bool) (sched : list (who * op)) : list (who * handler bfield fval) :=
+  map (fun p => (fst p, h_op eg (snd p))) sched.
 
-Definition brun (p : dfield -> bool) (sched : list (who * op)) (s : bsys) : bsys :=
-  run_sched bfield fval (mk_pl p) (lift_sched sched) s.
+Definition brun (eg : bool) (p : dfield -> bool) (sched : list (who * op)) (s : bsys) : bsys :=
+  run_sched bfield fval (mk_pl p) (lift_sched eg sched) s.
 
 Definition ops_of (w : who) (sched : list (who * op)) : list op :=
   map snd (filter (fun p => who_eqb (fst p) w) sched).
@@ -800,9 +833,9 @@ Definition bdump (p : dfield -> bool) (w : who) (s : bsys) : list rec3 * list bo
   let v := bview_of p w s in (dump_view v, v_log v).
 
 (* a builder running alone: plain fold of the record handlers *)
-Definition solo_view (ops : list op) (v : bview) : bview := fold_left (fun v o => hview o v) ops v.
-Definition solo_dump (ops : list op) : list rec3 * list bool :=
-  let v := solo_view ops empty_view in (dump_view v, v_log v).
+Definition solo_view (eg : bool) (ops : list op) (v : bview) : bview := fold_left (fun v o => hview eg o v) ops v.
+Definition solo_dump (eg : bool) (ops : list op) : list rec3 * list bool :=
+  let v := solo_view eg ops empty_view in (dump_view v, v_log v).
 
 (* the placement of the seven dicts as determined by the generated table *)
 Definition placement_of (t : state_table) : dfield -> bool := fun f =>
